@@ -113,31 +113,49 @@ def run(ctx):
     at = prog.body('planner::rules::type_::analyze_type')
     if ctx.anchor(R6, 'planner::rules::type_::analyze_type', at is not None):
         ctx.functions_analysed.add(at.name)
-        un = [c for c in at.calls if (c.fn or '').endswith('DataType::union') and c.bb in at.reachable_from(at.succs[c.bb])]
+        def flow(bd, c):
+            """(locals the result of call c ends up in, locals its operands derive from)"""
+            acc, todo, seen = set(), [c.dest['l']], set()
+            while todo:
+                x = todo.pop()
+                if x in seen:
+                    continue
+                seen.add(x)
+                for bb, st in bd.stmts():
+                    if st['s'] == 'assign' and not st['lhs']['p'] and any(pl['l'] == x for pl in __pl(st['rv'])):
+                        acc.add(st['lhs']['l'])
+                        todo.append(st['lhs']['l'])
+                for k in bd.calls:
+                    if any(a['k'] != 'const' and a['pl']['l'] == x for a in k.args) and re.search(r'ok_or(_else)?$|Try::branch$', k.fn or ''):
+                        todo.append(k.dest['l'])
+            ops_origin = set()
+            for a in c.args:
+                if a['k'] != 'const':
+                    ops_origin |= origin_locals(bd, a['pl']['l'], depth=4)
+            return acc | (seen - {c.dest['l']}), ops_origin
+        # the row loop: a `for` loop in analyze_type itself, or the closure of a fold over the rows (`rest.iter().try_fold(first, |acc, row| ..)`)
+        un = [(at, c, None) for c in at.calls if (c.fn or '').endswith('DataType::union') and c.bb in at.reachable_from(at.succs[c.bb])]
+        folds = {}
+        for g in prog.group(at.root):
+            for bb, st in g.stmts():
+                rv = st.get('rv', {})
+                if rv.get('rv') == 'agg' and rv.get('kind') == 'closure' and rv.get('def') in prog.bodies:
+                    cl = st['lhs']['l']
+                    if any(re.search(r'Iterator::(try_fold|fold)$', k.fn or '') and any(a['k'] != 'const' and cl in origin_locals(g, a['pl']['l'], depth=3)
+                                                                                         for a in k.args) for k in g.calls):
+                        folds[rv['def']] = prog.bodies[rv['def']]
+        for ch in folds.values():
+            un += [(ch, c, 2) for c in ch.calls if (c.fn or '').endswith('DataType::union')]       # _2 of the closure = the accumulator
         if ctx.anchor(R6, 'analyze_type: DataType::union inside a loop', un):
-            for c in un:
-                # where does the result end up?  follow it forward through ok_or / `?` / moves to plain locals
-                acc, todo, seen = set(), [c.dest['l']], set()
-                while todo:
-                    x = todo.pop()
-                    if x in seen:
-                        continue
-                    seen.add(x)
-                    for bb, st in at.stmts():
-                        if st['s'] == 'assign' and not st['lhs']['p'] and any(pl['l'] == x for pl in __pl(st['rv'])):
-                            acc.add(st['lhs']['l'])
-                            todo.append(st['lhs']['l'])
-                    for k in at.calls:
-                        if any(a['k'] != 'const' and a['pl']['l'] == x for a in k.args) and re.search(r'ok_or(_else)?$|Try::branch$', k.fn or ''):
-                            todo.append(k.dest['l'])
-                ops_origin = set()
-                for a in c.args:
-                    if a['k'] != 'const':
-                        ops_origin |= origin_locals(at, a['pl']['l'], depth=4)
-                carried = acc & ops_origin
+            for bd, c, acc_param in un:
+                acc, ops_origin = flow(bd, c)
+                if acc_param is None:
+                    carried = acc & ops_origin
+                else:   # the union takes the accumulator and its result is what the closure returns
+                    carried = ({acc_param} & ops_origin) if (acc & bd.ret_locals() or c.dest['l'] in bd.ret_locals()) else set()
                 ctx.ob(R6, 'Values·union-is-accumulated', bool(carried),
-                       f'union at block {c.bb}: result stored into locals {sorted(acc)[:8]}; operands derive from {sorted(ops_origin)[:8]}; '
-                       f'loop-carried: {sorted(carried)}', [site(at, c.bb)],
+                       f'union at block {c.bb} of {bd.name}: result stored into locals {sorted(acc)[:8]}; operands derive from {sorted(ops_origin)[:8]}; '
+                       f'loop-carried: {sorted(carried)}', [site(bd, c.bb)],
                        what='analyze_type unions every VALUES row with the first row instead of with the type accumulated so far: the list '
                             'gets the type union(first, last) and a wider middle row is narrowed without an error')
 
@@ -316,7 +334,12 @@ def __pl(x):
 
 def insert_bodies(prog):
     """InsertExecutor::execute with its closures, and the other methods of InsertExecutor (a helper that builds the cast expression)"""
-    return [b for b in prog.bodies.values() if b.name.startswith('executor::insert::InsertExecutor::<S>::')]
+    out = [b for b in prog.bodies.values() if b.name.startswith('executor::insert::InsertExecutor::<S>::')]
+    roots = {b.root for b in out}
+    # .. and free functions of the module that only the executor calls
+    out += [b for b in prog.bodies.values() if b.root not in roots and b.name.startswith('executor::insert::')
+            and prog.owned_by(b.root, roots)]
+    return out
 
 
 def lossless_insert_casts(ctx, prog):
